@@ -25,6 +25,9 @@ def _tolist(a):
             a = a.to_numpy()
     except Exception:
         pass
+    if np.ma.isMaskedArray(a):
+        # masked elements are missing values whatever lies underneath
+        a = a.astype("float64").filled(np.nan) if a.dtype.kind in "fiub" else a.filled(np.datetime64("NaT")) if a.dtype.kind == "M" else a.filled(None)
     a = np.asarray(a)
     if a.dtype.kind == "M":
         return [None if np.isnat(v) else tnorm(int(v.astype("datetime64[ms]").astype("int64")) / 1000) for v in a.ravel()]
